@@ -460,8 +460,8 @@ def alpha(root):
                     lines = txt.split("\n")
                     if lines and lines[-1] == "":
                         lines.pop()
-                    elif raw:
-                        a["junk"].append("unterminated:" + "/".join(comps))
+                    # (a last line without its terminator is a layout matter -- C15 -- not a
+                    # bookkeeping error: the pid is listed)
                     a["cidrefs"]["".join(comps[2:])] = lines
                     continue
             a["foreign"].append("/".join(comps))
